@@ -96,7 +96,7 @@ register(
     "Visitor-coverage clauses of undeclared-fixture precision: (R6b) the body visitors descend into every nested "
     "statement list, (R6c) every name-binding form of the language is read by the local-variable collector and all "
     "parameter kinds are enumerated. The quick-fix text edit is a string-value property and is not decided.",
-    [r6.r6b_body, r6.r6c_binding_forms, r10.r10i_no_textual_path_prefix, r3.r3h_wrappers_always_analyse, r8.r11a_analyze_then_publish],
+    [r6.r6b_body, r6.r6c_binding_forms, r10.r10i_no_textual_path_prefix, r3.r3h_wrappers_always_analyse, r8.r11a_analyze_then_publish, r8.r8a_diagnostic_codes],
 )
 
 from . import r5
@@ -109,7 +109,7 @@ register(
     "(R5e) the same-file stage takes the last definition; (R10j) the skip filter of import extraction tests the module "
     "string that is recorded (relative imports keep their dots), so a conftest's relative import is not dropped. "
     "That the cascade order and the conftest walk coincide with pytest for every layout is not decided.",
-    [r5.r5a_c01, r5.r5e_same_file_last, r5.r5f_walk_bounds, r10.r10j_filter_sees_recorded_module] + CACHE + [r3.r3a_clean_before_append],
+    [r5.r5a_c01, r5.r5e_same_file_last, r5.r5f_walk_bounds, r10.r10j_filter_sees_recorded_module, r10.r10i_no_textual_path_prefix] + CACHE + [r3.r3a_clean_before_append],
 )
 
 register(
@@ -118,7 +118,7 @@ register(
     "site of the cascade, (R5c) every caller that resolves usages pairs the non-excluding and the excluding resolver "
     "under a test of the current definition's name against the usage name (memo lookups included). Cursor-column "
     "arithmetic and chain semantics are not decided.",
-    [r5.r5b_filter_everywhere, r5.r5c_selfref_pairing, r5.r5h_usage_before_definition_line, r4.r4b_unordered_pick] + CACHE,
+    [r5.r5b_filter_everywhere, r5.r5c_selfref_pairing, r5.r5h_usage_before_definition_line, r5.r5g_usage_attribution, r4.r4b_unordered_pick] + CACHE,
 )
 
 from . import r4
@@ -143,7 +143,7 @@ register(
     "selection sites cover the same-file / conftest / plugin / third-party stages) use the same selector class per "
     "stage as the navigation cascade, (R5a) none of them selects by name alone. Agreement on every input and the "
     "hover/inlay text are not decided.",
-    [r5.r5d_siblings, _r5a_c05, r5.r5c_selfref_pairing, r5.r5f_walk_bounds, r5.r5g_usage_attribution, r5.r5h_usage_before_definition_line] + CACHE,
+    [r5.r5d_siblings, _r5a_c05, r5.r5c_selfref_pairing, r5.r5f_walk_bounds, r5.r5g_usage_attribution, r5.r5h_usage_before_definition_line, r10.r10i_no_textual_path_prefix] + CACHE,
 )
 
 register(
@@ -152,7 +152,7 @@ register(
     "before it is returned, (R4b) first-match exits from such iterations are reviewed for uniqueness of the match, "
     "(R4c) order-sensitive selections over the per-name definition vector (registration order = scan schedule) are "
     "pinned to one file. Ties under non-total sort keys and other channels of nondeterminism are not decided.",
-    [r4.r4a_unordered, r4.r4b_unordered_pick, r5.r4c_order_sensitive, r2.r2a_atomic_ops, r10.r10f_no_short_circuit, r1.r1f_no_try_lock, r4.r4d_sort_keys_are_projections],
+    [r4.r4a_unordered, r4.r4b_unordered_pick, r5.r4c_order_sensitive, r2.r2a_atomic_ops, r10.r10f_no_short_circuit, r1.r1f_no_try_lock, r4.r4d_sort_keys_are_projections, r3d.r3d_memo_context, r10.r10i_no_textual_path_prefix],
 )
 
 from . import r8
@@ -164,7 +164,7 @@ register(
     "returned in hash order; (R8b) the scope enum follows pytest's order, parse/as_str agree with it and a "
     "ScopeMismatch is built only under `fixture.scope > dependency.scope`. Soundness/completeness of the cycle "
     "search is not decided.",
-    [_r5a_c16, _r4a_c16, r8.r8b_scope_order, r8.r8d_decorator_keywords, r3.r3a_clean_before_append] + CACHE,
+    [_r5a_c16, _r4a_c16, r8.r8b_scope_order, r8.r8d_decorator_keywords, r8.r8a_diagnostic_codes, r3.r3a_clean_before_append] + CACHE,
 )
 
 register(
@@ -192,7 +192,7 @@ register(
     "Structural clauses of completion: (R11c) every push into the per-file view is guarded by the seen-set (one entry "
     "per name); (R8c) the textual fallback recognises every decorator module the AST recogniser accepts. Context "
     "classification per line, the offered set algebra and sort priorities are not decided.",
-    [r8.r11c_one_entry_per_name, r8.r8c_text_fallback, r8.r8e_text_fallback_on_every_miss] + CACHE,
+    [r8.r11c_one_entry_per_name, r8.r8c_text_fallback, r8.r8e_text_fallback_on_every_miss, r5.r5f_walk_bounds] + CACHE,
 )
 
 from . import r7
@@ -217,7 +217,7 @@ register(
     "of the value given to WalkDir::new) and the directory filter is depth-aware; (R10b) the walk's file-name predicate "
     "and the import-scan seed predicate use the same literal tests; (R10f) the parallel phase uses a "
     "non-short-circuiting consumer. That exactly pytest's file set is indexed for every tree is not decided.",
-    [r10.r10a_relocation, r10.r10a2_classification_relative, r10.r10b_filename_predicates, r10.r10f_no_short_circuit, r1.r1f_no_try_lock, r10.r10k_config_location],
+    [r10.r10a_relocation, r10.r10a2_classification_relative, r10.r10b_filename_predicates, r10.r10f_no_short_circuit, r1.r1f_no_try_lock, r10.r10k_config_location, r8.r11e_report_root_is_scan_root],
 )
 
 register(
